@@ -1,7 +1,7 @@
 (* RootQ_wake_proofs.v — Part 3 of the root queue proofs: no lost wake-up.
    Whenever an item is pushed and not claimed, some thread is at a program point from which a look at the queue (or the
    poke that leads to one) is unavoidable, or the pool semaphore holds a signal. *)
-From Coq Require Import ZArith Bool List Lia.
+From Coq Require Import ZArith Bool List Lia ZifyBool.
 From Verif Require Import Word Conc Gen_consts Gen_fields Gen_rootq RootQ RootQ_proofs RootQ_pool_proofs.
 Import ListNotations.
 Local Open Scope Z_scope.
@@ -51,4 +51,598 @@ Proof.
   - destruct (I4 U') as [(u & Hu)|Hs].
     + left. exists u. cbn. rewrite Ep. rewrite upd_other; [exact Hu|]. intros ->. congruence.
     + right. lia.
+Qed.
+
+Lemma cnt_sigpost_nonneg s : 0 <= cnt is_sigpost s.
+Proof. apply cnt_nonneg. apply weights_nonneg. Qed.
+
+(* K2 of inv4_keep, the common endings *)
+Ltac k_tok := left; reflexivity.
+Ltac k_same IC Hpc :=
+  right; right; split; [rewrite Hpc; reflexivity|];
+  rewrite (surplus_step _ _ _ _ IC) by reflexivity; unfold surplus; rewrite ?Hpc;
+  cbn [sval ksem set_pend set_pool set_sval set_ksem set_head set_nxt set_owner do_run is_sigpost kret]; lia.
+Ltac keep I4 IC Hpc :=
+  match goal with
+  | |- Inv4 (set_pc ?s1 ?t ?p) => apply (inv4_keep _ s1 t p I4 IC); [reflexivity | reflexivity | reflexivity | intros U]
+  end.
+
+Theorem inv4_step oc s t e s' : Inv1 s -> InvC s -> Inv4 s -> gstep oc s t e = Some s' -> Inv4 s'.
+Proof.
+  intros I1 IC I4 H.
+  pose proof (C_ksem s IC) as Hk. pose proof (cnt_sigpost_nonneg s) as Hsp. pose proof (C_sval s IC) as Hsv.
+  destruct (pcs s t) eqn:Hpc; gstep_open H Hpc; try unfold call_entry in H.
+  all: try solve [ open_case H; kcases; try match goal with c : ctx |- _ => destruct c end;
+                   keep I4 IC Hpc; first [ k_tok | k_same IC Hpc ] ].
+  - (* PPushXchg: the list of unclaimed items grows *)
+    open_case H. intros U'.
+    destruct (holder s) as [w|] eqn:Hw.
+    + (* the holder of the mediator re-pokes *)
+      left. exists w. destruct (holder_chain s w I1 Hw) as (_ & _ & Hp). cbn.
+      rewrite upd_other by (intros ->; rewrite Hpc in Hp; exact Hp).
+      destruct (pcs s w); cbn in Hp; try contradiction; reflexivity.
+    + destruct (Z.eqb_spec (tail s) 0) as [E0|E0].
+      * left. exists t. cbn. rewrite upd_same. cbn. match goal with X : ea e = tail s |- _ => rewrite X, E0 end. reflexivity.
+      * assert (U : unclaimed s <> []).
+        { unfold unclaimed. rewrite Hw. intros C. apply E0. apply (chain_nil_tail s I1 C). }
+        destruct (I4 U) as [(u & Hu)|Hs].
+        -- left. exists u. cbn. rewrite upd_other; [exact Hu|]. intros ->. rewrite Hpc in Hu. discriminate.
+        -- right. rewrite (surplus_step s _ t _ IC) by reflexivity. unfold surplus in Hs. rewrite Hpc. cbn. lia.
+  - (* PPushLink *)
+    destruct (Z.eqb_spec prev 0) as [E0|E0]; [subst prev|]; open_case H.
+    + apply (inv4_keep s (do_head_store s x) t _ I4 IC); try reflexivity. intros U. k_tok.
+    + keep I4 IC Hpc. right; right. split; [rewrite Hpc; cbn; destruct (Z.eqb_spec prev 0); [contradiction|reflexivity]|].
+      rewrite (surplus_step _ _ _ _ IC) by reflexivity; unfold surplus; rewrite ?Hpc. cbn. lia.
+  - (* PPokeProbe *)
+    open_case H; kcases; keep I4 IC Hpc; try k_tok;
+      exfalso; apply (unclaimed_tail s I1 U); congruence.
+  - (* PSigInc *)
+    open_case H; sval_rw;
+    (destruct (s64_inc_pos (sval s)) as [E1 E2]; [assumption| unfold RQ_LONG_MIN in *; lia |]); rewrite E1 in *;
+    kcases; keep I4 IC Hpc; right; left;
+    rewrite (surplus_step _ _ _ _ IC) by reflexivity; rewrite Hpc; cbn; lia.
+  - (* PCreate *)
+    open_case H; intros _; left; exists (ea e); cbn;
+    (rewrite upd_other by assumption); rewrite upd_same; reflexivity.
+  - (* PDrainXchg *)
+    open_case H.
+    all: try (keep I4 IC Hpc; k_tok).
+    all: intros _; left; exists t; cbn; rewrite upd_same; reflexivity.
+  - (* PDrainTail *)
+    open_case H; keep I4 IC Hpc; try k_tok. exfalso; apply (unclaimed_tail s I1 U); congruence.
+  - (* PCwEval *)
+    destruct q, pd; open_case H; try discriminate; unfold cw_after, cw_resume, ST_READY; cbn [Z.eqb Pos.eqb];
+      keep I4 IC Hpc; k_tok.
+  - (* PCwEvalT *)
+    open_case H; keep I4 IC Hpc; try k_tok.
+    all: unfold quiesced_status, cw_after, cw_resume, ST_WAIT, ST_READY, ST_ABORT in *.
+    all: match goal with X : ea _ = tail _ |- _ => rewrite X in * end.
+    all: pose proof (unclaimed_tail s I1 U) as Tn; destruct (Z.eqb_spec (tail s) 0); [contradiction|].
+    all: destruct (hv =? 0), pd; cbn in *; try discriminate; try k_tok; try (exfalso; congruence).
+  - (* PCwOut *)
+    open_case H; keep I4 IC Hpc. unfold cw_resume.
+    destruct (Z.eqb_spec status ST_READY) as [E0|E0]; [k_tok|].
+    right; right. split; [rewrite Hpc; cbn; destruct (Z.eqb_spec status ST_READY); [contradiction|reflexivity]|].
+    rewrite (surplus_step _ _ _ _ IC) by reflexivity; unfold surplus; rewrite ?Hpc. cbn. lia.
+  - (* PDrainCasTail *)
+    pose proof (I_thr s I1 t) as Tt. unfold tinv in Tt. rewrite Hpc in Tt. destruct Tt as [Th Tc].
+    open_case H.
+    + (* detached the last item: nothing unclaimed *)
+      intros U'. exfalso. apply U'. unfold unclaimed. cbn.
+      destruct (holder_chain s t I1 Th) as (Cn & _ & _).
+      destruct (chain s) as [|h' r] eqn:C; [congruence|]. cbn in Tc. subst h'.
+      assert (R : r = []).
+      { apply (last_cons_eq h r); [rewrite <- C; apply (I_nodup s I1)|]. rewrite <- C, <- (I_tail s I1).
+        assumption. }
+      subst r. reflexivity.
+    + keep I4 IC Hpc. k_tok.
+  - (* PDrainStoreHead *)
+    pose proof (I_thr s I1 t) as Tt. unfold tinv in Tt. rewrite Hpc in Tt. destruct Tt as (Th & _ & _).
+    open_case H. apply (inv4_keep s (do_detach s nx (tail s)) t _ I4 IC); try reflexivity.
+    + unfold unclaimed. cbn. rewrite Th. reflexivity.
+    + intros U. k_tok.
+  - (* PSemDec *)
+    open_case H; sval_rw; rewrite s64_dec in * by lia; keep I4 IC Hpc; try k_tok.
+    right; right. split; [rewrite Hpc; reflexivity|].
+    rewrite (surplus_step _ _ _ _ IC) by reflexivity; unfold surplus; rewrite ?Hpc. cbn. lia.
+Qed.
+
+Theorem all_inv_reach oc p0 s : valid_init p0 -> reach oc p0 s -> Inv1 s /\ InvC s /\ Inv4 s.
+Proof.
+  intros V R. induction R as [s E|s [t e] s' R IH St].
+  - subst. split; [apply Inv1_init|]. split; [apply InvC_init; exact V|apply Inv4_init].
+  - destruct IH as (I1 & IC & I4). unfold step in St. cbn [fst snd] in St.
+    split; [eapply inv1_step; eauto|]. split; [eapply invC_step; eauto|eapply inv4_step; eauto].
+Qed.
+
+(* ---- what a signal held by the semaphore means ---- *)
+(* a worker whose dispatch_semaphore_wait is guaranteed to return 0 *)
+Definition sem_taker (s : gst) (t : Z) : Prop :=
+  (pcs s t = PSemDec /\ 1 <= sval s) \/ (is_slow (pcs s t) = 1 /\ 1 <= cnt is_sigpost s + ksem s).
+(* a worker that left drain_one with NULL (or is finishing the poke it made before that) and goes to the semaphore *)
+Definition to_sem (p : pc) : bool :=
+  match p with
+  | PCwOut st => negb (st =? ST_READY)
+  | PSigPost KNull _ _ | PPendReq KNull _ _ | PPoolLoad KNull _ _ | PPoolLoop KNull _ _ _ => true
+  | _ => false
+  end.
+(* outside the pool protocol: client code (on any thread, or inside a work item on a pool thread, possibly in the part of a
+   push or poke that comes after the wake-up duty), or about to invoke an item *)
+Definition parked (p : pc) : bool :=
+  match p with
+  | PNone | PClient _ | PPushCall _ | PPushXchg _ _ | PGot _ => true
+  | PPushLink _ _ prev => negb (prev =? 0)
+  | PSigPost k _ _ | PPendReq k _ _ | PPoolLoad k _ _ | PPoolLoop k _ _ _ => match k with KNull => false | _ => true end
+  | _ => false
+  end.
+
+Lemma pc_partition p : tok p = true \/ p = PSemDec \/ is_slow p = 1 \/ to_sem p = true \/ parked p = true.
+Proof.
+  destruct p; cbn; try tauto; try (destruct k; cbn; tauto);
+    try (match goal with |- context [?a =? ?b] => destruct (a =? b) end; cbn; tauto).
+Qed.
+
+Lemma find_in_list (b : pc -> bool) (f : Z -> pc) (l : list Z) :
+  (exists t, In t l /\ b (f t) = true) \/ (forall t, In t l -> b (f t) = false).
+Proof.
+  induction l as [|a l IH]; [right; intros t []|].
+  destruct (b (f a)) eqn:E; [left; exists a; split; [left; reflexivity|exact E]|].
+  destruct IH as [(t & A & B)|IH]; [left; exists t; split; [right; exact A|exact B]|].
+  right. intros t [<-|H]; auto.
+Qed.
+Lemma find_pc (b : pc -> bool) s : b PNone = false -> support_ok s ->
+  (exists t, b (pcs s t) = true) \/ (forall t, b (pcs s t) = false).
+Proof.
+  intros B0 [_ Sup].
+  destruct (find_in_list b (pcs s) (seen s)) as [(t & _ & H)|H]; [left; exists t; exact H|]. right. intros t.
+  destruct (pcs s t) eqn:E; try (rewrite <- E; apply H; apply Sup; congruence). exact B0.
+Qed.
+
+Lemma surplus_meaning s : InvC s -> 1 <= surplus s ->
+  (exists t, sem_taker s t) \/ (1 <= sval s /\ forall t, pcs s t <> PSemDec /\ is_slow (pcs s t) = 0).
+Proof.
+  intros IC Hs. unfold surplus in Hs. pose proof (C_sem s IC) as B. pose proof (C_ksem s IC) as K.
+  pose proof (cnt_nonneg is_sigpost s (proj1 (proj2 weights_nonneg))) as P.
+  destruct (Z_lt_le_dec 0 (cnt is_sigpost s + ksem s)) as [Pos|Zero].
+  - left. assert (0 < cnt is_slow s) by lia.
+    destruct (tsum_pos_ex is_slow (pcs s) (seen s) (proj1 weights_nonneg) H) as (t & _ & Ht).
+    exists t. right. split; [|lia]. destruct (pcs s t); cbn in *; lia.
+  - assert (V : 1 <= sval s) by lia. assert (Z0 : cnt is_slow s = 0) by lia.
+    assert (NoSlow : forall t, is_slow (pcs s t) = 0).
+    { intros t. destruct (pcs s t) eqn:E; try reflexivity; exfalso;
+      assert (In t (seen s)) by (apply (C_sup s IC); congruence);
+      pose proof (tsum_ge is_slow (pcs s) (seen s) t (proj1 weights_nonneg) H) as G; rewrite E in G; cbn in G;
+      unfold cnt in Z0; lia. }
+    destruct (find_pc (fun p => match p with PSemDec => true | _ => false end) s eq_refl (C_sup s IC)) as [(t & Ht)|Hn].
+    + left. exists t. left. split; [destruct (pcs s t); try discriminate; reflexivity|exact V].
+    + right. split; [exact V|]. intros t. split; [|apply NoSlow]. intros E. specialize (Hn t). rewrite E in Hn. discriminate.
+Qed.
+
+(* C01_root_no_lost_wakeup *)
+Theorem no_lost_wakeup oc p0 s : valid_init p0 -> reach oc p0 s -> unclaimed s <> [] ->
+  (exists t, tok (pcs s t) = true) \/
+  (1 <= surplus s /\ exists t, sem_taker s t) \/
+  (1 <= sval s /\ exists t, to_sem (pcs s t) = true) \/
+  (1 <= sval s /\ forall t, parked (pcs s t) = true).
+Proof.
+  intros V R U. destruct (all_inv_reach oc p0 s V R) as (I1 & IC & I4).
+  destruct (I4 U) as [T|Hs]; [left; exact T|].
+  destruct (find_pc tok s eq_refl (C_sup s IC)) as [T|NT]; [left; exact T|].
+  destruct (surplus_meaning s IC Hs) as [Tk|[Vp Hn]]; [right; left; auto|].
+  destruct (find_pc to_sem s eq_refl (C_sup s IC)) as [T|NS]; [right; right; left; auto|].
+  right. right. right. split; [exact Vp|]. intros t.
+  destruct (pc_partition (pcs s t)) as [A|[A|[A|[A|A]]]]; try exact A.
+  - rewrite NT in A. discriminate.
+  - destruct (Hn t) as [X _]. contradiction.
+  - destruct (Hn t) as [_ X]. lia.
+  - rewrite NS in A. discriminate.
+Qed.
+
+(* ---- histories ---- *)
+(* the ghost histories record exactly the tail exchanges and the head exchanges that returned an item *)
+Lemma hist_step oc s t e s' : gstep oc s t e = Some s' ->
+  (hpush s' = hpush s \/ (exists c x, pcs s t = PPushXchg c x /\ hpush s' = hpush s ++ [(x, t)])) /\
+  (hpop s' = hpop s \/ (pcs s t = PDrainXchg /\ is_item (ea e) = true /\ ea e = head s /\ hpop s' = hpop s ++ [(ea e, t)])) /\
+  (runs s' = runs s \/ (exists h, pcs s t = PGot h /\ runs s' = runs s ++ [(h, t)])).
+Proof.
+  intros H. destruct (pcs s t) eqn:Hpc; gstep_open H Hpc; try unfold call_entry in H.
+  all: repeat split_if H; injection H as <-; cbn; repeat split; auto.
+  all: right; b2p; eauto.
+Qed.
+
+Definition pushed_by (p : Z) (x : Z * Z) : bool := snd x =? p.
+
+(* C01_root_pop_unique / C01_root_fifo_per_pusher *)
+Theorem pops_prefix_of_pushes oc p0 s : reach oc p0 s ->
+  exists claimed rest, hpush s = claimed ++ rest /\ map fst claimed = map fst (hpop s) /\ map fst rest = unclaimed s.
+Proof.
+  intros R. pose proof (I_hist s (inv1_reach oc p0 s R)) as H.
+  exists (firstn (length (hpop s)) (hpush s)), (skipn (length (hpop s)) (hpush s)).
+  split; [symmetry; apply firstn_skipn|].
+  assert (L : length (hpop s) = length (map fst (hpop s))) by (symmetry; apply map_length).
+  rewrite <- firstn_map, <- skipn_map, H, L. rewrite firstn_app, skipn_app, Nat.sub_diag, firstn_all, skipn_all. cbn.
+  rewrite app_nil_r. auto.
+Qed.
+
+Lemma nth_pop_is_nth_push oc p0 s k x w : reach oc p0 s -> nth_error (hpop s) k = Some (x, w) ->
+  exists p, nth_error (hpush s) k = Some (x, p).
+Proof.
+  intros R Hk. pose proof (I_hist s (inv1_reach oc p0 s R)) as H.
+  assert (E : nth_error (map fst (hpush s)) k = Some x).
+  { rewrite H. rewrite nth_error_app1 by (rewrite map_length; apply nth_error_Some; congruence).
+    rewrite nth_error_map, Hk. reflexivity. }
+  rewrite nth_error_map in E. destruct (nth_error (hpush s) k) as [[y p]|]; [|discriminate]. cbn in E. injection E as ->. eauto.
+Qed.
+
+Theorem fifo_per_pusher oc p0 s p : reach oc p0 s ->
+  exists claimed rest, hpush s = claimed ++ rest /\ map fst claimed = map fst (hpop s) /\
+    filter (pushed_by p) (hpush s) = filter (pushed_by p) claimed ++ filter (pushed_by p) rest.
+Proof.
+  intros R. destruct (pops_prefix_of_pushes oc p0 s R) as (c & r & E & M & _). exists c, r.
+  split; [exact E|]. split; [exact M|]. rewrite E. apply filter_app.
+Qed.
+
+(* ---- C01_root_list_integrity: the concrete structure determines the set of pushed-unclaimed items ---- *)
+Record structure (s : gst) (l : list Z) : Prop := {
+  S_nodup : NoDup l;
+  S_items : forall x, In x l -> is_item x = true;
+  S_tail : tail s = last l 0;
+  S_lastnxt : l <> [] -> nxt s (last l 0) = 0;
+  S_links : forall a b, adjacent a b l -> nxt s a = b \/ (nxt s a = 0 /\ exists t c, pcs s t = PPushLink c b a);
+  S_first : match l with
+            | [] => head s = 0 \/ head s = MED
+            | c :: _ => head s = c \/
+                        ((head s = 0 \/ head s = MED) /\
+                         ((exists w, holder s = Some w /\ holder_pc (pcs s w)) \/ (exists p k, pcs s p = PPushLink k c 0)))
+            end
+}.
+
+Theorem list_integrity oc p0 s : reach oc p0 s ->
+  structure s (chain s) /\ map fst (hpush s) = map fst (hpop s) ++ unclaimed s /\
+  (forall w, holder s = Some w -> exists h r, chain s = h :: r /\ unclaimed s = r) /\ (holder s = None -> unclaimed s = chain s).
+Proof.
+  intros R. pose proof (inv1_reach oc p0 s R) as I. split; [|split; [apply (I_hist s I)|split]].
+  - constructor; try apply I.
+    pose proof (I_front s I) as F. unfold front in F.
+    destruct (chain s) as [|c r] eqn:C.
+    + destruct (holder s), (hstore s); try contradiction; try (destruct F as (_ & F & _); congruence);
+        try (destruct F as (F & _); congruence). destruct F as [[_ F]|(? & ? & F & _)]; [exact F|discriminate].
+    + destruct (holder s) as [w|] eqn:Hw, (hstore s) as [p|] eqn:Hp; try contradiction.
+      * destruct F as (F1 & _ & F3). right. split; [exact F3|]. left. eauto.
+      * destruct F as (_ & (k & F2) & F3). right. split; [exact F3|]. right. cbn in F2. eauto.
+      * destruct F as [[F _]|(c' & r' & F1 & F2)]; [discriminate|]. left. congruence.
+  - intros w Hw. destruct (holder_chain s w I Hw) as (Cn & _ & _). unfold unclaimed. rewrite Hw.
+    destruct (chain s) as [|h r]; [congruence|]. eauto.
+  - intros Hn. unfold unclaimed. rewrite Hn. reflexivity.
+Qed.
+
+(* ---- the monitor ---- *)
+(* C01_root_monitor_grows_pool, decision part: a bucket whose queue is not empty and whose registered workers are all
+   not runnable is poked with the hard floor target - WORKQ_MAX_TRACKED_TIDS, whatever the other buckets look like *)
+Lemma mon_pass_blocked_bucket target soft pre rest : forall g,
+  nth_error (mon_pass target soft g (pre ++ (true, 0) :: rest)) (length pre) = Some (Some (target - WORKQ_MAX_TRACKED_TIDS)).
+Proof.
+  induction pre as [|[pr nr] pre IH]; intros g.
+  - cbn. reflexivity.
+  - cbn [app length mon_pass]. destruct pr; cbn [negb].
+    + destruct (nr =? 0); [apply IH|]. destruct ((nr <? target) && (g + nr <? soft)); apply IH.
+    + apply IH.
+Qed.
+Lemma mon_pass_empty_bucket target soft pre rest nr : forall g,
+  nth_error (mon_pass target soft g (pre ++ (false, nr) :: rest)) (length pre) = Some None.
+Proof.
+  induction pre as [|[pr nr'] pre IH]; intros g.
+  - cbn. reflexivity.
+  - cbn [app length mon_pass]. destruct pr; cbn [negb].
+    + destruct (nr' =? 0); [apply IH|]. destruct ((nr' <? target) && (g + nr' <? soft)); apply IH.
+    + apply IH.
+Qed.
+
+Definition quiescent (s : gst) : Prop := forall t, pcs s t = PNone \/ exists c, pcs s t = PClient c.
+
+Lemma quiescent_counts s : InvC s -> quiescent s -> pend s = 0 /\ ksem s = 0 /\ 0 <= sval s.
+Proof.
+  intros IC Q.
+  assert (Z0 : forall w, w PNone = 0 -> (forall c, w (PClient c) = 0) -> cnt w s = 0).
+  { intros w A B. apply tsum_zero. intros u _. destruct (Q u) as [->|(c & ->)]; auto. }
+  pose proof (C_sem s IC) as S. rewrite (Z0 is_slow), (Z0 is_sigpost) in S by auto.
+  pose proof (C_pend s IC) as P. rewrite (Z0 w_pend) in P by auto.
+  pose proof (C_ksem s IC). lia.
+Qed.
+
+Lemma ev_at_refl k o ob off sz a b ok : ev_at (mkEv k o ob off sz a b ok) k o ob off = true.
+Proof. unfold ev_at. cbn. rewrite !Z.eqb_refl. reflexivity. Qed.
+Section Arith.
+Local Ltac Zify.zify_post_hook ::= Z.div_mod_to_equations.
+Lemma s64_u64 v : RQ_LONG_MIN <= v <= RQ_LONG_MAX -> s64 (u64 v) = v.
+Proof. unfold RQ_LONG_MIN, RQ_LONG_MAX, s64, u64. intros R. lia. Qed.
+Lemma s32_u32z v : -2147483648 <= v <= 2147483647 -> s32 (u32z v) = v.
+Proof. unfold s32, u32z. intros R. lia. Qed.
+End Arith.
+
+(* enabledness of the steps of a poke that finds nobody at the semaphore, no request pending and room in the pool *)
+Lemma run_call_mon oc s m f : (pcs s m = PNone \/ exists c, pcs s m = PClient c) -> floor_ok f = true ->
+  exists c, gstep oc s m (ev_call_mon f) = Some (set_pc s m (PPokeProbe (KClient c) 1 f)).
+Proof.
+  intros Pm Ff. assert (E : s64 (u64 f) = f).
+  { apply s64_u64. unfold floor_ok, FLOOR_B in Ff. b2p. unfold RQ_LONG_MIN, RQ_LONG_MAX. lia. }
+  destruct Pm as [Pm|(c & Pm)]; [exists COut|exists c]; unfold gstep, effect; rewrite Pm; cbn; rewrite E, Ff; reflexivity.
+Qed.
+Lemma run_probe oc s m k f : pcs s m = PPokeProbe k 1 f -> tail s <> 0 ->
+  gstep oc s m (mkEv DV_LOAD MO_SEQ_CST OBJ_Q OFF_TAIL 8 (tail s) (tail s) 1) = Some (set_pc s m (PSigInc k 1 f)).
+Proof.
+  intros Pm Tn. unfold gstep, effect. rewrite Pm. cbn [tstep]. rewrite ev_at_refl. cbn [ea guard].
+  destruct (Z.eqb_spec (tail s) 0); [contradiction|]. rewrite Z.eqb_refl. reflexivity.
+Qed.
+Lemma run_siginc_bank oc s m k f : pcs s m = PSigInc k 1 f -> 0 <= sval s < RQ_LONG_MAX ->
+  gstep oc s m (mkEv DV_ADD MO_RELEASE OBJ_SEM OFF_VALUE 8 (u64 (sval s)) 1 1) =
+    Some (set_pc (set_sval s (sval s + 1)) m (PPendReq k 1 f)).
+Proof.
+  intros Pm R. unfold gstep, effect. rewrite Pm. cbn [tstep]. rewrite ev_at_refl. cbn [ea eb guard andb Z.eqb Pos.eqb].
+  assert (E : s64 (u64 (sval s)) = sval s) by (apply s64_u64; unfold RQ_LONG_MIN, RQ_LONG_MAX in *; lia).
+  rewrite E. assert (E2 : s64 (sval s + 1) = sval s + 1) by (apply s64_id; unfold RQ_LONG_MAX in *; lia). rewrite E2.
+  destruct (Z.gtb_spec (sval s + 1) 0); [|lia]. rewrite Z.eqb_refl. reflexivity.
+Qed.
+Lemma run_pendreq s m k f : pcs s m = PPendReq k 1 f -> pend s = 0 ->
+  gstep false s m (mkEv DV_CAS MO_RELAXED OBJ_Q OFF_PEND 4 0 1 1) = Some (set_pc (set_pend s 1) m (PPoolLoad k 1 f)).
+Proof.
+  intros Pm P0. unfold gstep, effect. rewrite Pm. cbn [tstep]. rewrite ev_at_refl. cbn. rewrite P0. reflexivity.
+Qed.
+Lemma run_poolload oc s m k f : pcs s m = PPoolLoad k 1 f -> -2147483648 <= pool s <= 2147483647 ->
+  gstep oc s m (mkEv DV_LOAD MO_SEQ_CST OBJ_Q OFF_POOL 4 (u32z (pool s)) (u32z (pool s)) 1) =
+    Some (set_pc s m (PPoolLoop k 1 f (pool s))).
+Proof.
+  intros Pm R. unfold gstep, effect. rewrite Pm. cbn [tstep]. rewrite ev_at_refl. cbn [ea guard].
+  rewrite (s32_u32z _ R), Z.eqb_refl. reflexivity.
+Qed.
+Lemma run_poolcas oc s m k f : pcs s m = PPoolLoop k 1 f (pool s) -> -2147483647 <= pool s <= 2147483647 -> f < pool s ->
+  gstep oc s m (mkEv DV_CASW MO_ACQUIRE OBJ_Q OFF_POOL 4 (u32z (pool s)) (u32z (pool s - 1)) 1) =
+    Some (set_pc (set_pool s (pool s - 1)) m (PCreate k 1)).
+Proof.
+  intros Pm R Fl. unfold gstep, effect. rewrite Pm. cbn [tstep]. cbv zeta. unfold can_request.
+  destruct (Z.ltb_spec (pool s) f); [lia|]. destruct (Z.gtb_spec 1 (pool s - f)); [lia|].
+  cbn [Z.eqb]. rewrite ev_at_refl. cbn [ea eb eok guard andb negb orb Z.eqb Pos.eqb].
+  rewrite !s32_u32z by lia. rewrite !Z.eqb_refl. reflexivity.
+Qed.
+Lemma run_create oc s m k u : pcs s m = PCreate k 1 -> pcs s u = PNone -> u <> m ->
+  gstep oc s m (mkEv DVX_CREATE 0 0 0 0 u 0 1) = Some (set_pc (do_create s u) m (kret k)).
+Proof.
+  intros Pm Pu Nu. unfold gstep, effect. rewrite Pm. cbn [tstep ek ea]. rewrite Z.eqb_refl. cbn [Z.sub Z.add Z.opp Z.pos_sub Z.eqb guard].
+  rewrite Pu. cbn. destruct (Z.eqb_spec u m); [contradiction|]. reflexivity.
+Qed.
+
+(* C01_root_monitor_grows_pool, protocol part: from a state in which nothing of the pool protocol is in progress (every
+   pool thread is inside a work item), with an unclaimed item in the queue, the monitor's poke with floor f < pool size, run
+   alone, ends with a new worker thread *)
+Theorem monitor_poke_creates_worker s m f u :
+  Inv1 s -> InvC s -> quiescent s -> unclaimed s <> [] -> sval s < RQ_LONG_MAX -> pool0 s <= RQ_MAX_PTHREAD_COUNT ->
+  floor_ok f = true -> f < pool s -> pcs s u = PNone -> u <> m ->
+  exists s', grun false s (mon_schedule s m f u) = Some s' /\
+    pcs s' u = PWStart /\ pool s' = pool s - 1 /\ pend s' = 1 /\ sval s' = sval s + 1 /\ unclaimed s' = unclaimed s.
+Proof.
+  intros I1 IC Q U Sv P0 Ff Fl Pu Nu.
+  destruct (quiescent_counts s IC Q) as (Pz & Kz & Sz).
+  destruct (int_fields_in_range s IC) as (_ & Pr). unfold FLOOR_B, RQ_MAX_PTHREAD_COUNT in *.
+  pose proof (unclaimed_tail s I1 U) as Tn.
+  destruct (run_call_mon false s m f (Q m) Ff) as (c & S1).
+  unfold mon_schedule. cbn [grun]. rewrite S1.
+  set (s1 := set_pc s m (PPokeProbe (KClient c) 1 f)).
+  assert (E1 : tail s = tail s1) by reflexivity. rewrite E1.
+  rewrite (run_probe false s1 m (KClient c) f); [|apply upd_same|exact Tn].
+  set (s2 := set_pc s1 m (PSigInc (KClient c) 1 f)).
+  assert (E2 : sval s = sval s2) by reflexivity. rewrite E2.
+  rewrite (run_siginc_bank false s2 m (KClient c) f); [|apply upd_same|rewrite <- E2; lia].
+  set (s3 := set_pc (set_sval s2 (sval s2 + 1)) m (PPendReq (KClient c) 1 f)).
+  rewrite (run_pendreq s3 m (KClient c) f); [|apply upd_same|exact Pz].
+  set (s4 := set_pc (set_pend s3 1) m (PPoolLoad (KClient c) 1 f)).
+  assert (E4 : pool s = pool s4) by reflexivity. rewrite E4.
+  rewrite (run_poolload false s4 m (KClient c) f); [|apply upd_same|rewrite <- E4; lia].
+  set (s5 := set_pc s4 m (PPoolLoop (KClient c) 1 f (pool s4))).
+  assert (E5 : pool s4 = pool s5) by reflexivity. rewrite E5.
+  rewrite (run_poolcas false s5 m (KClient c) f); [|apply upd_same|rewrite <- E5, <- E4; lia|rewrite <- E5, <- E4; exact Fl].
+  set (s6 := set_pc (set_pool s5 (pool s5 - 1)) m (PCreate (KClient c) 1)).
+  rewrite (run_create false s6 m (KClient c) u); [|apply upd_same| |exact Nu].
+  2: { cbn. rewrite !upd_other by exact Nu. exact Pu. }
+  eexists. split; [reflexivity|]. cbn. rewrite upd_other by exact Nu. rewrite upd_same. auto.
+Qed.
+
+(* ---- the lost wake-up that only the monitor repairs ---- *)
+Lemma grun_reach oc p0 tr : forall s s', reach oc p0 s -> grun oc s tr = Some s' -> reach oc p0 s'.
+Proof.
+  induction tr as [|[t e] tr IH]; intros s s' R H; cbn in H.
+  - injection H as <-. exact R.
+  - destruct (gstep oc s t e) as [s1|] eqn:E; [|discriminate]. apply (IH s1 s'); [|exact H].
+    apply (reach_step _ _ s (t, e) s1 R). exact E.
+Qed.
+
+Definition stall_state : gst :=
+  match grun false (init_state 1) stall_schedule with Some s => s | None => init_state 1 end.
+
+Theorem stall_reachable :
+  reach false 1 stall_state /\ unclaimed stall_state = [32] /\ pool stall_state = 1 /\ pend stall_state = 0 /\
+  sval stall_state = 2 /\ quiescent stall_state.
+Proof.
+  assert (E : grun false (init_state 1) stall_schedule = Some stall_state).
+  { unfold stall_state. destruct (grun false (init_state 1) stall_schedule) eqn:G; [reflexivity|]. vm_compute in G. discriminate. }
+  assert (R : reach false 1 stall_state).
+  { apply (grun_reach false 1 stall_schedule (init_state 1)); [apply reach_init; reflexivity|exact E]. }
+  split; [exact R|]. split; [vm_compute; reflexivity|]. split; [vm_compute; reflexivity|]. split; [vm_compute; reflexivity|].
+  split; [vm_compute; reflexivity|].
+  assert (V : valid_init 1) by (unfold valid_init, RQ_MAX_PTHREAD_COUNT; lia).
+  destruct (invC_reach false 1 stall_state V R) as [IC _]. destruct (C_sup _ IC) as [_ Sup].
+  assert (Sn : seen stall_state = [3; 2; 1]) by (vm_compute; reflexivity).
+  intros t. destruct (pcs stall_state t) eqn:P; try (left; reflexivity); try (right; eauto; fail); exfalso;
+    (assert (In t (seen stall_state)) by (apply Sup; congruence));
+    rewrite Sn in H; cbn in H; destruct H as [<-|[<-|[<-|[]]]]; vm_compute in P; discriminate.
+Qed.
+
+(* ---- statements packaged for Properties_C01_root ---- *)
+Theorem monitor_grows_pool :
+  (forall target soft pre rest g,
+     nth_error (mon_pass target soft g (pre ++ (true, 0) :: rest)) (length pre) = Some (Some (target - WORKQ_MAX_TRACKED_TIDS))) /\
+  (forall p0 s m f u, valid_init p0 -> reach false p0 s -> quiescent s -> unclaimed s <> [] -> sval s < RQ_LONG_MAX ->
+     floor_ok f = true -> f < pool s -> pcs s u = PNone -> u <> m ->
+     exists s', grun false s (mon_schedule s m f u) = Some s' /\ reach false p0 s' /\
+       pcs s' u = PWStart /\ pool s' = pool s - 1 /\ pend s' = 1 /\ sval s' = sval s + 1 /\ unclaimed s' = unclaimed s) /\
+  (forall oc p0 s, valid_init p0 -> reach oc p0 s ->
+     0 <= pend s <= RQ_INT_MAX /\ - FLOOR_B <= pool s <= p0 /\ (forall t, pcs s t = PWStart -> 1 <= pend s)).
+Proof.
+  split; [intros; apply mon_pass_blocked_bucket|]. split.
+  - intros p0 s m f u V R Q U Sv Ff Fl Pu Nu. destruct (all_inv_reach false p0 s V R) as (I1 & IC & _).
+    destruct (invC_reach false p0 s V R) as [_ E0].
+    destruct (monitor_poke_creates_worker s m f u I1 IC Q U Sv) as (s' & G & A); auto.
+    { rewrite E0. apply V. }
+    exists s'. split; [exact G|]. split; [apply (grun_reach false p0 _ s s' R G)|exact A].
+  - intros oc p0 s V R. destruct (invC_reach oc p0 s V R) as [IC E0]. destruct (int_fields_in_range s IC) as [A B].
+    rewrite E0 in B. split; [exact A|]. split; [exact B|]. intros t Ht. apply (worker_start_has_pending s t IC Ht).
+Qed.
+
+Theorem thread_automaton :
+  (forall oc s t e s', gstep oc s t e = Some s' -> tstep oc (pcs s t) e = Some (pcs s' t)) /\
+  (forall oc p e p', tstep_vis oc p e = Some p' ->
+     tstep oc p e = Some p' \/ exists h p1, hidden_ev h = true /\ tstep oc p h = Some p1 /\ tstep oc p1 e = Some p') /\
+  (forall oc p e p', tstep oc p e = Some p' -> is_atomic_ev e = true -> existsb (site_ok e) (pc_sites oc p) = true) /\
+  model_sites_push = f_dispatch_root_queue_push_inline_sites /\ model_sites_poke = f_dispatch_root_queue_poke_sites /\
+  model_sites_poke_slow = f_dispatch_root_queue_poke_slow_sites /\
+  model_sites_mediator_is_gone = f_dispatch_root_queue_mediator_is_gone_sites /\
+  model_sites_quiesced = f_dispatch_root_queue_head_tail_quiesced_sites /\
+  skipn 2 f__DISPATCH_ROOT_QUEUE_CONTENDED_WAIT___sites = model_sites_cwait_pending /\
+  model_sites_drain_one = f_dispatch_root_queue_drain_one_sites /\
+  model_sites_wait_for_enqueuer = f_dispatch_wait_for_enqueuer_sites /\
+  model_sites_worker = f_dispatch_worker_thread_sites /\
+  model_sites_sem_signal = dispatch_semaphore_signal_sites /\ model_sites_sem_wait = dispatch_semaphore_wait_sites.
+Proof.
+  split; [exact gstep_tstep|]. split; [exact tstep_vis_sound|]. split; [exact tstep_site|].
+  repeat split; reflexivity.
+Qed.
+
+Lemma nonvacuous :
+  valid_init 1 /\ reach false 1 stall_state /\ unclaimed stall_state <> [] /\ quiescent stall_state /\
+  sval stall_state < RQ_LONG_MAX /\ floor_ok (1 - WORKQ_MAX_TRACKED_TIDS) = true /\ 1 - WORKQ_MAX_TRACKED_TIDS < pool stall_state /\
+  pcs stall_state 4 = PNone /\ hpop stall_state = [(16, 2)] /\ map fst (hpush stall_state) = [16; 32].
+Proof.
+  destruct stall_reachable as (R & U & P & _ & Sv & Q).
+  split; [unfold valid_init, RQ_MAX_PTHREAD_COUNT; lia|]. split; [exact R|]. split; [rewrite U; discriminate|].
+  split; [exact Q|]. split; [rewrite Sv; reflexivity|]. split; [reflexivity|]. split; [rewrite P; reflexivity|].
+  split; [vm_compute; reflexivity|]. split; vm_compute; reflexivity.
+Qed.
+
+Theorem pop_unique : forall oc p0 s, reach oc p0 s ->
+  (exists claimed rest, hpush s = claimed ++ rest /\ map fst claimed = map fst (hpop s) /\ map fst rest = unclaimed s) /\
+  (forall k x w, nth_error (hpop s) k = Some (x, w) -> exists p, nth_error (hpush s) k = Some (x, p)) /\
+  (forall t e s', gstep oc s t e = Some s' ->
+     (hpush s' = hpush s \/ (exists c x, pcs s t = PPushXchg c x /\ hpush s' = hpush s ++ [(x, t)])) /\
+     (hpop s' = hpop s \/ (pcs s t = PDrainXchg /\ is_item (ea e) = true /\ ea e = head s /\ hpop s' = hpop s ++ [(ea e, t)])) /\
+     (runs s' = runs s \/ (exists h, pcs s t = PGot h /\ runs s' = runs s ++ [(h, t)]))).
+Proof.
+  intros oc p0 s R. split; [exact (pops_prefix_of_pushes oc p0 s R)|]. split.
+  - intros k x w. exact (nth_pop_is_nth_push oc p0 s k x w R).
+  - intros t e s'. exact (hist_step oc s t e s').
+Qed.
+
+(* ---- the ghost list is determined by the concrete state ---- *)
+(* the item a holder of the mediator has claimed *)
+Definition held_item (p : pc) : option Z :=
+  match p with
+  | PDrainNext h | PDrainStoreNull h | PDrainCasTail h | PDrainWaitNext h _ | PDrainStoreHead h _ => Some h
+  | _ => None
+  end.
+(* where the list starts, read from the concrete state *)
+Definition starts_at (s : gst) (c : Z) : Prop :=
+  head s = c \/
+  ((head s = 0 \/ head s = MED) /\
+   ((exists w, holder s = Some w /\ held_item (pcs s w) = Some c) \/ (exists p k, pcs s p = PPushLink k c 0))).
+
+Lemma chain_starts s c r : Inv1 s -> chain s = c :: r -> starts_at s c.
+Proof.
+  intros I C. pose proof (I_front s I) as F. unfold front in F. rewrite C in F. unfold starts_at.
+  destruct (holder s) as [w|] eqn:Hw, (hstore s) as [p|] eqn:Hp; try contradiction.
+  - destruct F as (F1 & _ & F3). right. split; [exact F3|]. left. exists w. split; [reflexivity|].
+    pose proof (I_thr s I w) as T. unfold tinv in T. rewrite C in T.
+    destruct (pcs s w); cbn in F1; try contradiction; cbn in *.
+    + destruct T as [_ <-]; reflexivity.
+    + destruct T as [_ <-]; reflexivity.
+    + destruct T as [_ <-]; reflexivity.
+    + destruct T as [_ (b & r' & E)]. injection E as -> _. reflexivity.
+    + destruct T as (_ & (r' & E) & _). injection E as -> _. reflexivity.
+  - destruct F as (_ & (k & F2) & F3). right. split; [exact F3|]. right. cbn in F2. eauto.
+  - destruct F as [[F _]|(c' & r' & F1 & F2)]; [discriminate|]. left. congruence.
+Qed.
+
+Lemma starts_unique s c c' : Inv1 s -> is_item c = true -> is_item c' = true -> starts_at s c -> starts_at s c' -> c = c'.
+Proof.
+  intros I Ic Ic' [A|[A1 A2]] [B|[B1 B2]]; try congruence.
+  - exfalso. destruct (is_item_spec c Ic). rewrite <- A in *. tauto.
+  - exfalso. destruct (is_item_spec c' Ic'). rewrite <- B in *. tauto.
+  - destruct A2 as [(w & Hw & Iw)|(p & k & Hp)], B2 as [(w' & Hw' & Iw')|(p' & k' & Hp')].
+    + assert (w = w') by congruence. subst. congruence.
+    + exfalso. destruct (holder_chain s w I Hw) as (_ & Hs & _).
+      pose proof (I_thr s I p') as T. unfold tinv in T. rewrite Hp' in T. cbn in T. destruct T as [_ T]. congruence.
+    + exfalso. destruct (holder_chain s w' I Hw') as (_ & Hs & _).
+      pose proof (I_thr s I p) as T. unfold tinv in T. rewrite Hp in T. cbn in T. destruct T as [_ T]. congruence.
+    + pose proof (I_thr s I p) as T. unfold tinv in T. rewrite Hp in T. cbn in T. destruct T as [_ T].
+      pose proof (I_thr s I p') as T'. unfold tinv in T'. rewrite Hp' in T'. cbn in T'. destruct T' as [_ T'].
+      assert (p = p') by congruence. subst. congruence.
+Qed.
+
+(* a list that fits the concrete state from some start to the tail *)
+Record fits (s : gst) (l : list Z) : Prop := {
+  F_nodup : NoDup l;
+  F_items : forall x, In x l -> is_item x = true;
+  F_tail : tail s = last l 0;
+  F_links : forall a b, adjacent a b l -> nxt s a = b \/ (nxt s a = 0 /\ exists t c, pcs s t = PPushLink c b a)
+}.
+
+Lemma linker_unique s a b b' t c t' c' : Inv1 s -> a <> 0 -> pcs s t = PPushLink c b a -> pcs s t' = PPushLink c' b' a -> b = b'.
+Proof.
+  intros I Na H H'. pose proof (I_thr s I t) as T. pose proof (I_thr s I t') as T'. unfold tinv in T, T'. rewrite H in T. rewrite H' in T'.
+  destruct (Z.eqb_spec a 0); [contradiction|]. destruct T as (_ & T & _), T' as (_ & T' & _).
+  apply (adjacent_unique a b b' (chain s) (I_nodup s I) T T').
+Qed.
+
+Lemma fits_tl s c b r : fits s (c :: b :: r) -> fits s (b :: r).
+Proof.
+  intros [A B C D]. constructor.
+  - inversion A; assumption.
+  - intros x H. apply B. right. exact H.
+  - rewrite C. reflexivity.
+  - intros x y H. apply D. apply adjacent_cons. exact H.
+Qed.
+
+Lemma fits_unique s : Inv1 s -> forall r1 r2 c, fits s (c :: r1) -> fits s (c :: r2) -> r1 = r2.
+Proof.
+  intros I. induction r1 as [|b r1 IH]; intros r2 c F1 F2.
+  - symmetry. apply (last_cons_eq c r2 (F_nodup _ _ F2)). rewrite <- (F_tail _ _ F2), (F_tail _ _ F1). reflexivity.
+  - destruct r2 as [|b' r2].
+    + exfalso. assert (X : b :: r1 = []); [|discriminate].
+      apply (last_cons_eq c (b :: r1) (F_nodup _ _ F1)). rewrite <- (F_tail _ _ F1), (F_tail _ _ F2). reflexivity.
+    + assert (E : b = b').
+      { assert (Ib : is_item b = true) by (apply (F_items _ _ F1); right; left; reflexivity).
+        assert (Ib' : is_item b' = true) by (apply (F_items _ _ F2); right; left; reflexivity).
+        assert (Ic : is_item c = true) by (apply (F_items _ _ F1); left; reflexivity).
+        destruct (is_item_spec b Ib), (is_item_spec b' Ib'), (is_item_spec c Ic).
+        destruct (F_links _ _ F1 c b) as [L|(L & t & k & Ht)]; [cbn; auto| |];
+        destruct (F_links _ _ F2 c b') as [L'|(L' & t' & k' & Ht')]; try (cbn; auto; fail); try congruence.
+        apply (linker_unique s c b b' t k t' k' I); assumption. }
+      subst b'. f_equal. apply (IH r2 b); eapply fits_tl; eassumption.
+Qed.
+
+(* the concrete state determines the list: any list that starts where the state says the list starts and fits the links up to
+   the tail is the ghost list *)
+Theorem chain_determined oc p0 s l : reach oc p0 s ->
+  fits s l -> (match l with [] => True | c :: _ => starts_at s c end) -> l = chain s.
+Proof.
+  intros R F St. pose proof (inv1_reach oc p0 s R) as I.
+  assert (FC : fits s (chain s)) by (constructor; apply I).
+  destruct l as [|c r], (chain s) as [|c' r'] eqn:C; try reflexivity.
+  - exfalso. pose proof (F_tail _ _ F) as T. pose proof (F_tail _ _ FC) as T'. cbn in T. rewrite T in T'.
+    assert (X : In (last (c' :: r') 0) (c' :: r')) by (apply last_in; discriminate).
+    apply (F_items _ _ FC) in X. rewrite <- T' in X. discriminate.
+  - exfalso. pose proof (F_tail _ _ F) as T. pose proof (F_tail _ _ FC) as T'. cbn [last] in T'. rewrite T' in T.
+    assert (X : In (last (c :: r) 0) (c :: r)) by (apply last_in; discriminate).
+    apply (F_items _ _ F) in X. rewrite <- T in X. discriminate.
+  - assert (E : c = c').
+    { apply (starts_unique s c c' I); [apply (F_items _ _ F); left; reflexivity|apply (F_items _ _ FC); left; reflexivity|exact St|].
+      apply (chain_starts s c' r' I C). }
+    subst c'. f_equal. apply (fits_unique s I r r' c F FC).
 Qed.
